@@ -310,6 +310,10 @@ AuditStable(s) ==
   \* right after a stabilise: heap empty, every necessary valid node has a value
   (s.rchLen = 0) =>
      \A n \in 1..s.n : (Alive(s, n) /\ Nec(s, n) /\ s.valid[n]) => Value(s, n) # NoVal
+AuditParts(s) ==
+  (IF AuditEdges(s) THEN {} ELSE {"edges"}) \cup (IF AuditParents(s) THEN {} ELSE {"parents"})
+  \cup (IF AuditHeights(s) THEN {} ELSE {"heights"}) \cup (IF AuditHeap(s) THEN {} ELSE {"heap"})
+  \cup (IF AuditCounters(s) THEN {} ELSE {"counters"}) \cup (IF AuditStable(s) THEN {} ELSE {"values"})
 Audit(s) ==
   (Ok(s) /\ s.status = "idle") =>
      /\ AuditEdges(s) /\ AuditParents(s) /\ AuditHeights(s) /\ AuditHeap(s)
